@@ -29,15 +29,13 @@ def grammar(tier):
         out.append((cls, s))
     signs = ["", "+", "-"]
     digs = {"ascii": ["0", "1", "12", "007"], "arabic": ["١", "١٢"], "super": ["²"], "fullwidth": ["１２"]}
-    ws = [("", ""), (" ", ""), ("", " "), ("\t", "\n")] if tier != "quick" else [("", ""), (" ", " ")]
+    ws = [("", ""), (" ", ""), ("", " "), ("\t", "\n")]
     for sg in signs:
         for dk, dl in digs.items():
             for d in dl:
                 for us in ("", "_3"):
                     for frac in ("", ".", ".5", ".5_0"):
                         for ex in ("", "e3", "E-2", "e+1_0"):
-                            if tier == "quick" and (dk != "ascii" and (frac or ex or us)):
-                                continue
                             for l, r in ws:
                                 add(f"num:{dk}", f"{l}{sg}{d}{us}{frac}{ex}{r}")
     for sg in signs:
@@ -65,12 +63,12 @@ def grammar(tier):
     for d in dates:
         add("iso:date", d)
     for t in times:
-        for z in (zones if tier != "quick" else zones[:3]):
+        for z in zones:
             add("iso:time", t + z)
-    for d in (dates[:9] + ["2020-13-01", "2020-02-30"] if tier != "quick" else dates[:4]):
+    for d in dates[:9] + ["2020-13-01", "2020-02-30"]:
         for sep in ("T", " ", "t", "_"):
-            for t in (times[:9] + ["24:00", "12:60"] if tier != "quick" else times[:5] + ["24:00"]):
-                for z in (zones[:4] if tier != "quick" else zones[:2]):
+            for t in times[:9] + ["24:00", "12:60"]:
+                for z in zones[:4]:
                     add("iso:datetime", f"{d}{sep}{t}{z}")
     for s in ("", " ", "a", "b", "abc", "x" * 20, "2020-01-01T", "T", "-", "+", "--1", "1-1", "1:1", "1:1:1", "1.1.1", "1/1",
               "today", "now", "monday", "12 o'clock", "10 am", "noon", "1st", "3rd June", "June", "Sat", "01 02 03", "1 2 3 4",
